@@ -183,8 +183,9 @@ def _judge_r1(ctx, tag, formal, s, loc):
             if not ev.chain:
                 ctx.info("%s: augmented assignment on non-data parameter %s (rebinding for scalars)" % (tag, ev.origin))
             continue
-        groups.setdefault((ev.origin, ev.desc), []).append(ev)
+        groups.setdefault((ev.origin, ev.desc + (("@" + ev.guard) if ev.guard else "")), []).append(ev)
     for (origin, desc), evs in sorted(groups.items()):
+        # key = entry point, caller parameter, sink kind and the option values under which the sink is reached (never helper names)
         key = "%s:%s:%s" % (tag, origin, desc)
         where = "; ".join(sorted({"%s%s" % (e.loc, (" reached through " + " -> ".join(e.chain)) if e.chain else "") for e in evs}))
         sure = [e for e in evs if e.sure]
@@ -257,6 +258,7 @@ class RngScope:
                 self.funcs.append((m, q, fn, c))
         self._callsites = None
         self._bound = {}
+        self._indirect = {}
 
     def ext(self, module, fn, expr):
         d = dotted(expr)
@@ -307,9 +309,79 @@ class RngScope:
                             self._callsites.setdefault(id(t.func), []).append((m, fn, c, inner, t))
         return self._callsites.get(id(target_fn), [])
 
+    def indirect_sites(self, target_fn):
+        """uses of ``target_fn`` as a *value* (``g = f`` / ``g, opts = f, {...}`` / dict of functions) that is later called through the
+        local: [(module, enclosing fn, cls, positional args, {keyword: expr} | None)]; keyword dicts are taken from the ``**local`` whose
+        literal is assigned together with the function (same tuple assignment or same statement list)."""
+        key = id(target_fn)
+        if key in self._indirect:
+            return self._indirect[key]
+        out = []
+        for m in self.repo.non_test_modules():
+            for q, fn, c in functions_of(self.repo, m):
+                refs = []
+                for blk in _stmt_lists(fn):
+                    for st in blk:
+                        if not isinstance(st, ast.Assign) or len(st.targets) != 1:
+                            continue
+                        pairs = []
+                        t, v = st.targets[0], st.value
+                        if isinstance(t, ast.Name):
+                            pairs.append((t, v, None))
+                        elif isinstance(t, ast.Tuple) and isinstance(v, ast.Tuple) and len(t.elts) == len(v.elts):
+                            for i_, (te, ve) in enumerate(zip(t.elts, v.elts)):
+                                pairs.append((te, ve, (t, v)))
+                        for te, ve, tup in pairs:
+                            if not (isinstance(te, ast.Name) and isinstance(ve, (ast.Name, ast.Attribute))):
+                                continue
+                            sym = self.repo.resolve_expr(m, ve)
+                            if sym is None or sym.kind != "func" or sym.target is not target_fn or (dotted(ve) or "").split(".")[0] in self.bound_names(fn):
+                                continue
+                            refs.append((te.id, blk, st, tup))
+                for (gname, blk, st, tup) in refs:
+                    for call in astq.calls(fn):
+                        if not (isinstance(call.func, ast.Name) and call.func.id == gname):
+                            continue
+                        kws = {k.arg: k.value for k in call.keywords if k.arg}
+                        ok = True
+                        for k in call.keywords:
+                            if k.arg is not None:
+                                continue
+                            lit = None
+                            if isinstance(k.value, ast.Dict):
+                                lit = k.value
+                            elif isinstance(k.value, ast.Name):
+                                if tup is not None:
+                                    for te2, ve2 in zip(tup[0].elts, tup[1].elts):
+                                        if isinstance(te2, ast.Name) and te2.id == k.value.id and isinstance(ve2, ast.Dict):
+                                            lit = ve2
+                                if lit is None:
+                                    for st2 in blk:
+                                        if isinstance(st2, ast.Assign) and len(st2.targets) == 1 and isinstance(st2.targets[0], ast.Name) \
+                                                and st2.targets[0].id == k.value.id and isinstance(st2.value, ast.Dict):
+                                            lit = st2.value
+                            if lit is None or any(kk is None or not isinstance(kk, ast.Constant) for kk in lit.keys):
+                                ok = False
+                                break
+                            for kk, vv in zip(lit.keys, lit.values):
+                                kws[kk.value] = vv
+                        out.append((m, fn, c, list(call.args), kws if ok else None))
+        self._indirect[key] = out
+        return out
+
     def param_bindings(self, fn, pname):
         """expressions bound to parameter ``pname`` at every call site; 'default' entries carry the default expr"""
         out = []
+        names = astq.param_names(fn)
+        for (m, cfn, c, pos, kws) in self.indirect_sites(fn):
+            if kws is None or any(isinstance(a, ast.Starred) for a in pos):
+                out.append((m, cfn, c, None))
+            elif pname in kws:
+                out.append((m, cfn, c, kws[pname]))
+            elif pname in names and names.index(pname) < len(pos):
+                out.append((m, cfn, c, pos[names.index(pname)]))
+            else:
+                out.append((m, cfn, c, astq.param_defaults(fn).get(pname, "missing")))
         for (m, cfn, c, call, t) in self.callsites(fn):
             skip = t.kind == "method" and not (t.defcls is not None and t.defcls.is_static(t.name))
             b = astq.bind_call(fn, call, skip_self=skip)
@@ -409,6 +481,17 @@ class RngScope:
         if astq.is_self_attr(expr, selfname) and cls is not None:
             return any(v is not None and self.is_rng_ctor(m, f, v) for m, f, k, v in self.class_attr_values(cls, expr.attr))
         return False
+
+
+def _stmt_lists(fn):
+    """every statement list (body / orelse / finalbody / handler body) inside ``fn``"""
+    out = []
+    for n in ast.walk(fn):
+        for field in ("body", "orelse", "finalbody"):
+            lst = getattr(n, field, None)
+            if isinstance(lst, list) and lst and isinstance(lst[0], ast.stmt):
+                out.append(lst)
+    return out
 
 
 def _all(res):
@@ -597,6 +680,31 @@ def check_member_seed(ctx, repo, mods):
             ok, why = scope.seed_ok(m, fn, c, b[p])
             ctx.check(ok, "R3", key, "%s receives a seed derived from %s" % (t.cls.name, why),
                       "%s seeds the member %s with something not derived from self.random_state: %s" % (q, t.cls.name, why), loc)
+
+
+def check_horizon_store_table(ctx, repo):
+    """R7 (c): predict calls _set_fh first; for a fitted forecaster that must not replace the stored horizon (predict never changes the
+    estimator).  The store / raise decision tables of the two horizon mixins are what C20-R6 decides; its verdicts are imported here."""
+    from .. import report
+    try:
+        from . import c20
+        from ..boolx import bind_repo
+        bind_repo(repo)
+        sub = report.Ctx("C20", repo, ctx.tier)
+        c20.rule_R6(sub, repo)
+    except Exception as e:  # C20 reports its own analysis problems
+        ctx.info("horizon store table (C20-R6) not evaluated: %r" % (e,))
+        return
+    known = {(k["rule"], k["construct"]) for k in report.load_known() if k.get("property") == "C20" and k.get("status", "known") == "known"}
+    bad = [r for r in sub.results if r["verdict"] == report.VIOLATION and (r["rule"], r["construct"]) not in known]
+    for r in bad:
+        ctx.violation("R7", "predict:horizon-store:%s" % r["construct"],
+                      "predict -> _set_fh: the horizon bookkeeping deviates from its decision table (C20-%s): %s -- a fitted forecaster's stored "
+                      "horizon can be replaced by a predict call, so later predict() calls return something else" %
+                      (r["rule"], " ".join(str(r["detail"]).split())[:300]), r["loc"], witness=r.get("witness"))
+    if not bad:
+        ctx.ok("R7", "predict:horizon-store", "the horizon mixins store fh only as their decision tables allow (%d obligations of C20-R6 hold)"
+               % sum(1 for r in sub.results if r["verdict"] == report.HOLDS), "sktime/forecasting/base/_sktime.py")
 
 
 def check_reentrancy(ctx, repo, mods):
@@ -1538,6 +1646,7 @@ def run(ctx):
     check_stored_generator(ctx, repo, mods)
     check_member_seed(ctx, repo, mods)
     check_reentrancy(ctx, repo, mods)
+    check_horizon_store_table(ctx, repo)
     check_derived_state(ctx, repo, mods)
     check_fit_accumulation(ctx, repo, mods, eng)
     check_apply_state_writes(ctx, repo, mods, eng)
